@@ -81,7 +81,7 @@ build_driver() {
       || ocamlfind ocamlopt -w -a $X.mli $X.ml ops.ml driver.ml -o drv > ocaml.log 2>&1 ) || { tail -20 $D/ocaml.log >&2; fail "ocaml $X"; }
 }
 
-clusters() { ls $V/coq/theories/Extraction/Extract*.v 2>/dev/null | sed -E 's/.*Extract(.*)\.v/\1/'; }
+clusters() { for f in $V/coq/theories/Extraction/Extract*.v; do b=$(basename $f .v); echo ${b#Extract}; done; }
 
 case $mode in
   coq) build_coq ;;
